@@ -2,7 +2,8 @@
 import glob, json, os
 import vlib
 
-TARGETS = ["Base/Num.vo", "Base/Corr.vo", "C07/Model.vo", "C07/Corr.vo", "C07/Spec.vo", "C07/ProofsBase.vo",
+TARGETS = ["Base/Num.vo", "Base/Corr.vo", "C07/Model.vo", "C07/ModelNewton.vo", "C07/Corr.vo", "C07/Spec.vo", "C07/SpecNewton.vo",
+           "C07/ProofsNewton.vo", "C07/ExamplesNewton.vo", "C07/ProofsQuad.vo", "C07/ProofsBase.vo",
            "C07/ProofsRprop.vo", "C07/ProofsGD.vo", "C07/ProofsLS.vo", "C07/ProofsBfgs.vo", "C07/ProofsDense.vo", "C07/ProofsAdam.vo",
            "C07/Proofs.vo", "C07/Refuted.vo", "C07/Props.vo"]
 PROPS = ["C07/Props.v"]
@@ -10,7 +11,10 @@ CORPUS = os.path.join(vlib.ROOT, "corpus/C07/corpus.jsonl")
 PARTIAL = ("Theorems are about the hand-written oracle-machine models in coq/C07/Model.v; the objective (through AD), "
            "hook and constraint callback are universally quantified oracles. Convergence rates and 'reaches the "
            "minimiser within the cap' are not claimed. AD seed bookkeeping (Variables(1)) is checked by the tie, "
-           "not proved.")
+           "not proved. newton: newton_root (RunRoot, RunCrit) is modelled with getDirection (linear solve / LDL / "
+           "eigenvalue modification) as an oracle whose logged answers feed the replay; newton_min (RunMin, its "
+           "lineSearch variant), saga and blahut are not modelled (blahut has no stop test of its own: it returns "
+           "only at the step cap or on a hook stop).")
 
 # sites of the hunt's property oracle that are known findings of the unchanged library
 # (each has a `_refuted` lemma on the model and a witness in corpus/C07)
@@ -102,7 +106,7 @@ def run(ctx):
         ctx.violation({"obligation": "build of harness/c07 against " + vlib.REPO, "log": blog[-3000:]}, False,
                       "tie lost: the C07 harness no longer builds against the library")
         return
-    n = 600 if ctx.tier == "quick" else 4000
+    n = 780 if ctx.tier == "quick" else 5200   # 3 of 13 runs are newton.RunRoot / RunCrit (round 2)
     bad = corr(ctx, binary, n)
     known = known_sites()
     h = hunt(ctx, binary, bad)
